@@ -313,7 +313,7 @@ func ref(v ssa.Value) *Ref {
 		out.Globals[n] = tstr(vv.Type().(*types.Pointer).Elem())
 		return &Ref{K: "g", N: n, T: tstr(vv.Type())}
 	case *ssa.Function:
-		if isWanted(pkgOf(vv)) || vv.Synthetic != "" {
+		if isWanted(pkgOf(vv)) || (vv.Synthetic != "" && vv.Pkg == nil) {
 			enqueue(vv)
 		}
 		return &Ref{K: "f", N: fname(vv), T: tstr(vv.Type())}
@@ -569,7 +569,7 @@ func exportMethodSet(s string, t types.Type) {
 			continue
 		}
 		m[sel.Obj().Id()] = fname(fn)
-		if isWanted(pkgOf(fn)) || fn.Synthetic != "" {
+		if isWanted(pkgOf(fn)) || (fn.Synthetic != "" && fn.Pkg == nil) {
 			enqueue(fn)
 		} else if _, ok := out.Funcs[fname(fn)]; !ok {
 			// record the signature only
